@@ -371,9 +371,9 @@ func init() {
 	limits := []int{-1, 0, 1, 2, 3, 100}
 	offsets := []int{-1, 0, 1, 2, 100}
 	fw.Register(&fw.Prop{
-		ID:    "C09",
-		Level: "exploration",
-		Rule: "5 datasets built for ties (equal _time with different dims, equal values at different times, missing dims, never-set field; part flushed, part in memory) × all ORDER BY key lists of length 0..3 (quick) / 0..4 (thorough) without repetition over {_time,x,y,a,av} with every ASC/DESC assignment × LIMIT {absent,0,1,2,3,100} × OFFSET {absent,0,1,2,100}; oracle: same multiset as unordered, adjacent rows non-decreasing under an independently written lexicographic comparator (missing dims may sort first or last, consistently), LIMIT/OFFSET rows carry the sort keys of rows m..m+n-1 of the ordered result, never more than n; non-trivial = order differs from unordered / limit cuts a proper non-empty part",
+		ID:          "C09",
+		Level:       "exploration",
+		Rule:        "5 datasets built for ties (equal _time with different dims, equal values at different times, missing dims, never-set field; part flushed, part in memory) × all ORDER BY key lists of length 0..3 (quick) / 0..4 (thorough) without repetition over {_time,x,y,a,av} with every ASC/DESC assignment × LIMIT {absent,0,1,2,3,100} × OFFSET {absent,0,1,2,100}; oracle: same multiset as unordered, adjacent rows non-decreasing under an independently written lexicographic comparator (missing dims may sort first or last, consistently), LIMIT/OFFSET rows carry the sort keys of rows m..m+n-1 of the ordered result, never more than n; non-trivial = order differs from unordered / limit cuts a proper non-empty part",
 		Assumptions: []string{"ties may be broken either way", "missing dimensions may sort to either end"},
 		Shards:      func(tier string) int { return 16 },
 		Budget:      func(tier string) time.Duration { return 15 * time.Minute },
